@@ -338,6 +338,23 @@ func (d *DB) UpdateStats() {
 }
 
 // InsertSQL renders an INSERT statement; ok=false when some value has no SQL literal form.
+// InsertSQLPerm is InsertSQL with the column list (and every value tuple) written in the order perm (a permutation of the column positions).
+func InsertSQLPerm(table string, cols []refmodel.Col, rows []refmodel.Row, perm []int) (string, bool) {
+	pc := make([]refmodel.Col, len(cols))
+	for i, j := range perm {
+		pc[i] = cols[j]
+	}
+	pr := make([]refmodel.Row, len(rows))
+	for k, r := range rows {
+		nr := make(refmodel.Row, len(r))
+		for i, j := range perm {
+			nr[i] = r[j]
+		}
+		pr[k] = nr
+	}
+	return InsertSQL(table, pc, pr)
+}
+
 func InsertSQL(table string, cols []refmodel.Col, rows []refmodel.Row) (string, bool) {
 	names := make([]string, len(cols))
 	for i, c := range cols {
